@@ -64,6 +64,8 @@ pub enum AppOp {
     Clear,
     // discovery
     GetKnown,
+    /// the application drops the receiving end of its on_discovery channel
+    DropChannel,
     Announce(bool),
     RemoveFromDiscovery,
     DumpStore,
@@ -107,6 +109,9 @@ pub struct Scenario {
     pub duration_ms: u64,
     pub probe: bool,
     pub max_steps: u64,
+    /// run the whole scenario over IPv6 (ff02::fb) instead of IPv4
+    #[serde(default)]
+    pub v6: bool,
 }
 
 // ------------------------------------------------------------------ generation
@@ -413,6 +418,7 @@ pub fn generate(seed: u64, focus: &str, profile: Profile) -> Scenario {
                 6 => AppOp::Announce(false),
                 7 => AppOp::Announce(true),
                 8 => AppOp::RemoveFromDiscovery,
+                9 => AppOp::DropChannel,
                 _ => AppOp::DumpStore,
             };
             script.push((at, op));
@@ -685,5 +691,6 @@ pub fn generate(seed: u64, focus: &str, profile: Profile) -> Scenario {
         duration_ms,
         probe: true,
         max_steps: 60_000,
+        v6: r.chance(1, 8),
     }
 }
